@@ -250,14 +250,14 @@ Qed.
    head of the input *)
 Theorem c13_inline cfg s c c' e k sc : conn_step cfg s c = Some (c', e) -> pc c = CInline k sc ->
   nread c' = nread c /\ started c' = started c /\
-  (input c' = input c \/ exists rest, sc = HHandshake :: rest /\ input c = IHello :: input c').
+  (input c' = input c \/ exists rest, sc = HHandshake :: rest /\ (input c = IHello :: input c' \/ input c = IBad :: input c')).
 Proof.
   unfold conn_step. intros H Hpc. rewrite Hpc in H.
   destruct sc as [|h rest]; [destruct k; inversion H; subst; cbn; auto|].
   destruct (negb (hstep_enabled s c h)); [discriminate|].
   destruct h; [|destruct (recovery cfg)|..]; try (inversion H; subst; cbn; auto; fail).
   inversion H; subst; cbn. split; [reflexivity|]. split; [reflexivity|].
-  destruct (input c) as [|[| |] r]; auto. right. eexists. split; reflexivity.
+  destruct (input c) as [|[| |] r]; auto; right; eexists; (split; [reflexivity|]); [right|left]; reflexivity.
 Qed.
 
 (* per-request goroutines never touch the input or the read counter either *)
